@@ -76,10 +76,14 @@ RemoteAny(k, t) ==
 
 Remote(k, t) == <<k, <<t, Peer>>>> \notin remote /\ Cardinality(remote) < MaxRemote /\ RemoteAny(k, t)
 
-Checkpoint ==
+(* a checkpoint of the whole state; with trim the deltas it covers are dropped (segments and WAL files *)
+(* older than a checkpoint are garbage), so that the checkpoint alone carries those stamps             *)
+CheckpointWith(trim) ==
   /\ up
-  /\ disk' = {d \in disk : d.place # "ckpt"} \cup {[k |-> k, st |-> mem[k], place |-> "ckpt"] : k \in {j \in Key : mem[j] # Zero}}
+  /\ disk' = (IF trim THEN {} ELSE {d \in disk : d.place # "ckpt"})
+             \cup {[k |-> k, st |-> mem[k], place |-> "ckpt"] : k \in {j \in Key : mem[j] # Zero}}
   /\ UNCHANGED <<up, clock, mem, seen, issued, remote, bad, ncrash>>
+Checkpoint == \E trim \in BOOLEAN : CheckpointWith(trim)
 
 Crash == /\ up /\ ncrash < MaxCrash /\ ncrash' = ncrash + 1 /\ up' = FALSE /\ clock' = 0
          /\ mem' = [k \in Key |-> Zero] /\ seen' = [k \in Key |-> Zero]
